@@ -26,11 +26,12 @@ static cJSON_bool vf_stub_emit(const void *item, printbuffer * const p, int isst
     pp_item[k] = item; pp_off[k] = p->offset; pp_depth[k] = p->depth; pp_res[k] = 0; pp_L[k] = 0; pp_isstr[k] = isstr;
     if (!IN.pp_ok[k]) return 0;
     L = 1 + IN.pp_len[k] % VF_PLEN;
+    for (i = 0; i < L; i++) VF_ASSUME(IN.pp_txt[k][i] != 0);      /* assumption first, then the code it constrains */
     out = ensure(p, L + 1);
     if (out == 0) return 0;
-    for (i = 0; i < L; i++) { VF_ASSUME(IN.pp_txt[k][i] != 0); out[i] = IN.pp_txt[k][i]; }
+    for (i = 0; i < L; i++) out[i] = IN.pp_txt[k][i];
     out[L] = 0;
-    if (!isstr) p->offset += IN.pp_adv[k] % (L + 1);      /* print_string_ptr never advances the offset itself */
+    if (isstr != 1) p->offset += IN.pp_adv[k] % (L + 1);      /* print_string_ptr never advances the offset itself */
     pp_L[k] = L; pp_res[k] = 1;
     return 1;
 }
@@ -48,5 +49,14 @@ static cJSON_bool print_string_ptr(const unsigned char * const input, printbuffe
 {
     return vf_stub_emit(input, p, 1);
 }
+#endif
+#ifdef VF_STUB_print_number
+static cJSON_bool print_number(const cJSON * const item, printbuffer * const p) { return vf_stub_emit(item, p, 2); }
+#endif
+#ifdef VF_STUB_print_array
+static cJSON_bool print_array(const cJSON * const item, printbuffer * const p) { return vf_stub_emit(item, p, 3); }
+#endif
+#ifdef VF_STUB_print_object
+static cJSON_bool print_object(const cJSON * const item, printbuffer * const p) { return vf_stub_emit(item, p, 4); }
 #endif
 #endif
